@@ -59,6 +59,7 @@ type Scenario struct {
 	NoEmu bool    `json:"noemu,omitempty"`
 	SB    bool    `json:"sb,omitempty"`
 	DSeed int64   `json:"dseed"`
+	Limit int     `json:"limit,omitempty"` // > 0: ComputeUnit.InFlightVectorMemAccessLimit (public field; the builder sets 512)
 }
 
 const maxCycle = 2_000_000
@@ -142,12 +143,12 @@ func image(sc *Scenario, code []byte) *memImage {
 			if l < len(ts.Offs) {
 				off = ts.Offs[l]
 			}
-			m.write(tableBase+uint64(t*1024+l*4), le(uint64(off), 4), nil)
+			m.write(tableBase+uint64(t*tableRow+l*4), le(uint64(off), 4), nil)
 			src := make([]byte, 16)
 			for i := range src {
 				src[i] = byte(rng.Intn(256))
 			}
-			m.write(srcBase+uint64(t*4096+l*16), src, nil)
+			m.write(srcBase+uint64(t*wideRow+l*16), src, nil)
 		}
 	}
 	return m
@@ -285,6 +286,9 @@ func (r *runner) runTiming(sc *Scenario, code []byte, idx int, ref *memImage, re
 	u := cu.MakeBuilder().WithEngine(eng).WithFreq(1 * sim.GHz).
 		WithInstMem(sim.NewPort(dc, 1, 1, "Env.InstMem")).WithScalarMem(sim.NewPort(dc, 1, 1, "Env.ScalarMem")).
 		WithVectorMemModules(&mem.SinglePortMapper{Port: "Env.VectorMem"}).WithRegisterScoreboard(sc.SB).Build("CU")
+	if sc.Limit > 0 {
+		u.InFlightVectorMemAccessLimit = sc.Limit
+	}
 	conn := ab.NewConn("Conn")
 	for _, p := range []sim.Port{u.ToACE, u.ToCP, u.ToInstMem, u.ToScalarMem, u.ToVectorMem} {
 		conn.PlugIn(p)
@@ -517,9 +521,9 @@ func (r *runner) runTiming(sc *Scenario, code []byte, idx int, ref *memImage, re
 				hold = true
 			}
 			if !hold && op.q == "v" && sc.Mem.Perm && op.last {
-				// any order, except that an instruction's last request is answered after its other ones
+				// any order, except that a request flagged last does not overtake earlier requests of its instruction
 				for _, o2 := range queue {
-					if o2 != op && o2.q == "v" && o2.instID == op.instID {
+					if o2 != op && o2.q == "v" && o2.instID == op.instID && o2.seq < op.seq {
 						hold = true
 					}
 				}
@@ -620,9 +624,9 @@ func (r *runner) runTiming(sc *Scenario, code []byte, idx int, ref *memImage, re
 		r.st.Hangs++
 	}
 	r.emit("Quiesce", ab.Rec{"pending": pending, "cycle": cyc})
-	f := ab.Rec{"ref": b2i(refOK), "td": img.crc(dataBase, dataSize), "to": img.crc(outBase, uint64(len(sc.Tests))*4096)}
+	f := ab.Rec{"ref": b2i(refOK), "td": img.crc(dataBase, dataSize), "to": img.crc(outBase, uint64(len(sc.Tests))*wideRow)}
 	if refOK {
-		f["ed"], f["eo"] = ref.crc(dataBase, dataSize), ref.crc(outBase, uint64(len(sc.Tests))*4096)
+		f["ed"], f["eo"] = ref.crc(dataBase, dataSize), ref.crc(outBase, uint64(len(sc.Tests))*wideRow)
 		if fmt.Sprint(f["ed"], f["eo"]) != fmt.Sprint(f["td"], f["to"]) {
 			r.st.ValMismatch++
 		}
